@@ -5,7 +5,7 @@ _OnewayCallThread), Pyro5/callcontext.py and Pyro5/client.py (_pyroInvoke).  Emi
 `shape` record of coq/Model/CallCtx.v.  Anything that touches `current_context.response_annotations`
 in a way this reader does not recognise fails closed."""
 import ast
-from tools.gen.gen import generator, parse, find_class, find_func, need, GenError, HEADER, clist, cN, cbool, ast_sha
+from tools.gen.gen import generator, parse, find_class, find_func, need, GenError, HEADER, clist, cN, cbool, ast_sha, tree_module
 
 FIELDS = {"client": 0, "client_sock_addr": 1, "seq": 2, "msg_flags": 3, "serializer_id": 4, "annotations": 5,
           "correlation_id": 6, "response_annotations": 7}
@@ -290,11 +290,218 @@ def client_facts(mod):
     return {"reset": i_reset is not None and i_reset < i_conn}
 
 
-@generator("GenCallCtx", "Pyro5/server.py", "Pyro5/callcontext.py", "Pyro5/client.py")
-def gen_callctx(tree):
+
+# ---------------------------------------------------------------- second reader: the same facts, measured
+class _FakeSock(object):
+    family = 2
+
+    def __init__(self, peer_ok):
+        self.peer_ok = peer_ok
+
+    def getpeername(self):
+        if not self.peer_ok:
+            import errno
+            raise OSError(errno.ENOTCONN, "Transport endpoint is not connected")
+        return ("127.0.0.1", 45678)
+
+    def getsockname(self):
+        return ("127.0.0.1", 45679)
+
+
+class _FakeConn(object):
+    """stands in for a SocketConnection: serves the bytes of one message, records what is sent"""
+    def __init__(self, data, errors_mod, peer_ok=True):
+        self.buf, self.sent, self.sock = bytearray(data), [], _FakeSock(peer_ok)
+        self.errors_mod = errors_mod
+        self.pyroInstances, self.tracked_resources, self.keep_open, self.objectId = {}, set(), False, None
+
+    def recv(self, size):
+        if len(self.buf) < size:
+            raise self.errors_mod.ConnectionClosedError("receiving: not enough data")
+        out = bytes(self.buf[:size])
+        del self.buf[:size]
+        return out
+
+    def send(self, data):
+        self.sent.append(bytes(data))
+
+    def close(self):
+        pass
+
+    def fileno(self):
+        return -1
+
+
+def probe_server(tree):
+    """The facts of the `shape` record read by running the real handleRequest / _handshake / _OnewayCallThread of the tree
+    under test on stand-in connections, with the calling thread's context poisoned beforehand.  Used when the ast reader
+    does not recognise the source (refactored helpers, renamed locals, extra guards)."""
+    import threading, uuid
+    srvm = tree_module(tree, "Pyro5.server")
+    prot = tree_module(tree, "Pyro5.protocol")
+    ccm = tree_module(tree, "Pyro5.callcontext")
+    serm = tree_module(tree, "Pyro5.serializers")
+    errm = tree_module(tree, "Pyro5.errors")
+    corem = tree_module(tree, "Pyro5.core")
+    cfg = tree_module(tree, "Pyro5").config
+    cc = ccm.current_context
+    names = ["client", "client_sock_addr", "seq", "msg_flags", "serializer_id", "annotations", "correlation_id", "response_annotations"]
+    need(all(hasattr(cc, n) for n in names) and set(vars(cc)) == set(names), "call context fields differ from the modelled ones: %s" % sorted(vars(cc)))
+    saved = {n: getattr(cc, n) for n in names}
+    ser = serm.serializers["serpent"]
+    seen = {}
+
+    class Probe(object):
+        def look(self):
+            seen["fields"] = {n: getattr(cc, n) for n in names}
+            seen["resp_at_entry"] = dict(cc.response_annotations)
+            seen["thread"] = threading.current_thread()
+            cc.response_annotations["YSET"] = b"y"
+            return 1
+    srvm.expose(Probe)
+
+    class D(srvm.Daemon):
+        def annotations(self):
+            return {"DMNA": b"d"}
+    old_type = cfg.SERVERTYPE
+    cfg.SERVERTYPE = "multiplex"
+    try:
+        d = D(host="127.0.0.1", port=0)
+    finally:
+        cfg.SERVERTYPE = old_type
+    try:
+        d.register(Probe(), "probe")
+
+        def message(msgtype, flags, seq, payload, annotations=None, corr=None):
+            cc.correlation_id = corr
+            try:
+                return bytes(prot.SendingMessage(msgtype, flags, seq, ser.serializer_id, payload, annotations=annotations or {}).data)
+            finally:
+                cc.correlation_id = None
+
+        def parse_reply(conn):
+            need(len(conn.sent) == 1, "probe: expected exactly one reply, got %d" % len(conn.sent))
+            hs = prot._header_size if hasattr(prot, "_header_size") else 40
+            return prot.ReceivingMessage(conn.sent[0][:hs], conn.sent[0][hs:])
+
+        def poison():
+            cc.response_annotations = {"XPOI": b"p"}
+
+        def serve(data, peer_ok=True):
+            conn = _FakeConn(data, errm, peer_ok)
+            try:
+                d.handleRequest(conn)
+            except Exception:
+                pass
+            return conn
+        # -- ping
+        poison()
+        conn = serve(message(prot.MSG_PING, 0, 3, b"ping"))
+        m = parse_reply(conn)
+        need(m.type == prot.MSG_PING, "probe: ping not answered with a ping")
+        ping_clean = "XPOI" not in m.annotations
+        need("DMNA" in m.annotations, "probe: ping answer lacks the daemon's annotations")
+        inplace = "DMNA" in cc.response_annotations
+        # -- undecodable arguments
+        poison()
+        serve(message(prot.MSG_INVOKE, 0, 4, b"\x00\x01 not a call \xff"))
+        undec_clean = "XPOI" not in cc.response_annotations
+        # -- a call, context poisoned before; request A carries everything, request B nothing and its peer is unknown
+        sent_conn, sent_corr = object(), uuid.UUID(int=0x5e47)
+
+        def poison_fields():
+            cc.client, cc.client_sock_addr, cc.seq, cc.msg_flags, cc.serializer_id = sent_conn, ("9.9.9.9", 9), 54321, 0x7000, 99
+            cc.annotations, cc.correlation_id = {"SENT": b"s"}, sent_corr
+        call = ser.dumpsCall("probe", "look", (), {})
+        corr_a = uuid.UUID(int=0xa11ce)
+        poison()
+        poison_fields()
+        data_a = message(prot.MSG_INVOKE, 0, 7, call, {"QREQ": b"1"}, corr_a)
+        flags_a = prot.ReceivingMessage(data_a[:40]).flags
+        conn = serve(data_a)
+        need("fields" in seen, "probe: the method was not called")
+        fa, call_clean = seen.pop("fields"), "XPOI" not in seen["resp_at_entry"]
+        m = parse_reply(conn)
+        need(m.type == prot.MSG_RESULT and not (m.flags & prot.FLAGS_EXCEPTION) and "YSET" in m.annotations, "probe: the reply lacks the call's own annotation")
+        reset_after = "YSET" not in cc.response_annotations
+        ok_a = {"client": fa["client"] is conn, "client_sock_addr": fa["client_sock_addr"] == ("127.0.0.1", 45678), "seq": fa["seq"] == 7,
+                "msg_flags": fa["msg_flags"] == flags_a, "serializer_id": fa["serializer_id"] == ser.serializer_id,
+                "annotations": {k: bytes(v) for k, v in dict(fa["annotations"]).items()} == {"QREQ": b"1"}, "correlation_id": fa["correlation_id"] == corr_a}
+        poison_fields()
+        data_b = message(prot.MSG_INVOKE, 0, 8, call)
+        conn = serve(data_b, peer_ok=False)
+        need("fields" in seen, "probe: the method was not called for a request whose peer is unknown")
+        fb = seen.pop("fields")
+        ok_b = {"client": fb["client"] is conn, "client_sock_addr": fb["client_sock_addr"] is None, "seq": fb["seq"] == 8,
+                "msg_flags": fb["msg_flags"] == prot.ReceivingMessage(data_b[:40]).flags, "serializer_id": fb["serializer_id"] == ser.serializer_id,
+                "annotations": dict(fb["annotations"]) == {} and fb["annotations"] is not fa["annotations"],
+                "correlation_id": isinstance(fb["correlation_id"], uuid.UUID) and fb["correlation_id"] not in (sent_corr, corr_a)}
+        setup = sorted(FIELDS[n] for n in ok_a if ok_a[n] and ok_b[n])
+        if ping_clean and call_clean:
+            hr_pos = 1
+        elif call_clean:
+            hr_pos = 2 if undec_clean else 3
+        else:
+            hr_pos = 0
+        # -- handshake: first message unreadable / a proper CONNECT
+        poison()
+        conn = _FakeConn(message(prot.MSG_PING, 0, 1, b"ping"), errm)
+        try:
+            d._handshake(conn)
+        except Exception:
+            pass
+        m = parse_reply(conn)
+        need(m.type == prot.MSG_CONNECTFAIL, "probe: a non-CONNECT first message is not answered with CONNECTFAIL")
+        hs_garbage_clean = "XPOI" not in m.annotations
+        poison()
+        conn = _FakeConn(message(prot.MSG_CONNECT, 0, 1, ser.dumps({"handshake": "hello", "object": corem.DAEMON_NAME})), errm)
+        try:
+            d._handshake(conn)
+        except Exception:
+            pass
+        m = parse_reply(conn)
+        need(m.type == prot.MSG_CONNECTOK, "probe: a proper CONNECT is not accepted")
+        hs_ok_clean = "XPOI" not in m.annotations
+        hs_pos = 2 if (hs_garbage_clean and hs_ok_clean) else (1 if hs_ok_clean else 0)
+        # -- the oneway thread: context V1 when the thread object is made, changed to V2 before the thread gets to run
+        v1 = {"client": object(), "client_sock_addr": ("1.1.1.1", 1), "seq": 11, "msg_flags": 16, "serializer_id": 2,
+              "annotations": {"AAAA": b"a"}, "correlation_id": uuid.UUID(int=0xb0b), "response_annotations": {"RRRR": b"r"}}
+        for n, v in v1.items():
+            setattr(cc, n, v)
+        got = {}
+
+        def oneway_method():
+            got.update({n: getattr(cc, n) for n in names})
+        th = srvm._OnewayCallThread(oneway_method, (), {}, d, None)
+        for n, v in {"client": object(), "client_sock_addr": ("2.2.2.2", 2), "seq": 22, "msg_flags": 0, "serializer_id": 3,
+                     "annotations": {"BBBB": b"b"}, "correlation_id": uuid.UUID(int=0xc0c), "response_annotations": {"SSSS": b"s"}}.items():
+            setattr(cc, n, v)
+        th.start()
+        th.join(10)
+        need(bool(got), "probe: the oneway thread did not run its method")
+        oneway = sorted(FIELDS[n] for n in names if (got[n] is v1[n] or (isinstance(v1[n], (dict, tuple, int, uuid.UUID)) and got[n] == v1[n])))
+        # -- is the context per thread?
+        cc.seq = 777
+        other = {}
+        t2 = threading.Thread(target=lambda: other.update(seq=cc.seq))
+        t2.start()
+        t2.join(10)
+        thread_local = other.get("seq") != 777
+    finally:
+        for n, v in saved.items():
+            setattr(cc, n, v)
+        try:
+            d.close()
+        except Exception:
+            pass
+    return {"handleRequest": {"reset_pos": hr_pos, "reset_after": reset_after, "setup": setup},
+            "handshake": {"reset_pos": hs_pos}, "annotations_fn": {"inplace": inplace},
+            "callcontext": {"thread_local": thread_local, "restored": oneway}, "oneway": {"copies": bool(oneway)}}
+
+
+def server_facts_ast(tree):
     srv, _ = parse(tree, "Pyro5/server.py")
     ccm, _ = parse(tree, "Pyro5/callcontext.py")
-    cli, _ = parse(tree, "Pyro5/client.py")
     hr = find_func(srv, "handleRequest", "Daemon")
     hs = find_func(srv, "_handshake", "Daemon")
     an = find_func(srv, "__annotations", "Daemon")
@@ -307,11 +514,21 @@ def gen_callctx(tree):
         if isinstance(f, ast.FunctionDef) and f.name not in ("handleRequest", "_handshake", "__annotations"):
             need(not all_ra_uses(f), "Daemon.%s uses current_context.response_annotations" % f.name)
             need(not contains(f, lambda n: isinstance(n, ast.Attribute) and n.attr == "__annotations"), "Daemon.%s calls __annotations()" % f.name)
-    f_hr = handle_request_facts(hr)
-    f_hs = handshake_facts(hs)
-    f_an = annotations_fn_facts(an)
-    f_cc = callcontext_facts(ccm)
-    f_ow = oneway_thread_facts(srv)
+    return {"handleRequest": handle_request_facts(hr), "handshake": handshake_facts(hs), "annotations_fn": annotations_fn_facts(an),
+            "callcontext": callcontext_facts(ccm), "oneway": oneway_thread_facts(srv)}
+
+
+@generator("GenCallCtx", "Pyro5/server.py", "Pyro5/callcontext.py", "Pyro5/client.py")
+def gen_callctx(tree):
+    cli, _ = parse(tree, "Pyro5/client.py")
+    try:
+        facts = server_facts_ast(tree)
+        mode = "ast"
+    except GenError as x:
+        # the source is not written the way the ast reader expects: measure the same facts on the running code
+        facts = probe_server(tree)
+        mode = "probed (ast reader: %s)" % x
+    f_hr, f_hs, f_an, f_cc, f_ow = facts["handleRequest"], facts["handshake"], facts["annotations_fn"], facts["callcontext"], facts["oneway"]
     f_cl = client_facts(cli)
     oneway = f_cc["restored"] if f_ow["copies"] else []
     out = HEADER % "Pyro5/server.py, Pyro5/callcontext.py, Pyro5/client.py"
@@ -328,5 +545,5 @@ def gen_callctx(tree):
     out += "Definition oneway_fields : list N := %s.\n" % clist([cN(x) for x in oneway])
     out += "Definition client_reset_at_invoke : bool := %s.\n" % cbool(f_cl["reset"])
     info = {"handleRequest": f_hr, "handshake": f_hs, "annotations_fn": f_an, "callcontext": f_cc, "oneway": f_ow, "client": f_cl,
-            "ast_sha": {"handleRequest": ast_sha(hr), "_handshake": ast_sha(hs), "__annotations": ast_sha(an)}}
+            "mode": mode}
     return out, info
